@@ -38,10 +38,34 @@ def int_expr(draw, depth: int, cols=INT_COLS):
         n = draw(st.integers(2, 3))
         return ("coalesce", [draw(int_expr(depth - 1, cols)) for _ in range(n)])
     if k == 9:
+        if draw(st.booleans()):
+            return draw(_casen(depth, lambda: int_expr(depth - 1, cols), lambda: bool_expr(depth - 1)))
         return ("case", draw(bool_expr(depth - 1)), draw(int_expr(depth - 1, cols)), draw(int_expr(depth - 1, cols)))
     if k == 10:
         return ("if", draw(bool_expr(depth - 1)), draw(int_expr(depth - 1, cols)), draw(int_expr(depth - 1, cols)))
     return ("bin", "+", draw(int_expr(depth - 1, cols)), _lit(draw))
+
+
+@st.composite
+def _casen(draw, depth, value, cond):
+    """Multi-branch CASE: 2-3 WHEN branches, optional ELSE, conditions constant (TRUE/FALSE/NULL/1 = 1) a third of the time --
+    the position of a statically known branch among unknown ones is what the conditional simplifier must respect.
+    ("casen", [c1, v1, c2, v2, ...], default | None); ("cases", operand, [m1, v1, ...], default | None) is CASE x WHEN m ..."""
+    n = draw(st.integers(2, 3))
+    flat = []
+    simple = draw(st.integers(0, 3)) == 0
+    for _ in range(n):
+        if simple:
+            flat.append(draw(st.sampled_from((("int", 0), ("int", 1), ("null",), ("col", "a"), ("col", "b")))))
+        elif draw(st.integers(0, 2)) == 0:
+            flat.append(draw(st.sampled_from((("bool", True), ("bool", False), ("null",), ("cmp", "=", ("int", 1), ("int", 1)), ("cmp", "<", ("int", 2), ("int", 1))))))
+        else:
+            flat.append(draw(cond()))
+        flat.append(draw(value()))
+    default = draw(value()) if draw(st.integers(0, 2)) else None
+    if simple:
+        return ("cases", draw(st.sampled_from((("col", "a"), ("col", "b"), ("int", 1), ("null",)))), flat, default)
+    return ("casen", flat, default)
 
 
 @st.composite
@@ -105,6 +129,8 @@ def bool_expr(draw, depth: int, pool=None):
         n = draw(st.integers(2, 3))
         return ("coalesce", [draw(bool_expr(depth - 1, pool)) for _ in range(n)])
     if k == 12:
+        if draw(st.booleans()):
+            return draw(_casen(depth, lambda: bool_expr(depth - 1, pool), lambda: bool_expr(depth - 1, pool)))
         return ("case", draw(bool_expr(depth - 1, pool)), draw(bool_expr(depth - 1, pool)), draw(bool_expr(depth - 1, pool)))
     if k == 13:
         return ("if", draw(bool_expr(depth - 1, pool)), draw(bool_expr(depth - 1, pool)), draw(bool_expr(depth - 1, pool)))
@@ -160,7 +186,7 @@ def render(e, sqlite: bool = False, qual: str = "") -> str:
 
     def wrap(x):
         s = r(x)
-        if x[0] in ("col", "int", "bool", "null", "paren", "coalesce", "case", "if"):
+        if x[0] in ("col", "int", "bool", "null", "paren", "coalesce", "case", "casen", "cases", "if"):
             if x[0] == "int" and x[1] < 0:
                 return f"({s})"
             return s
@@ -200,7 +226,7 @@ def render(e, sqlite: bool = False, qual: str = "") -> str:
         return f" {k.upper()} ".join(parts)
     if k == "not":
         x = e[1]
-        if x[0] in ("col", "bool", "null", "paren", "coalesce", "case", "if", "not"):
+        if x[0] in ("col", "bool", "null", "paren", "coalesce", "case", "casen", "cases", "if", "not"):
             return f"NOT {r(x)}"
         return f"NOT ({r(x)})"
     if k == "isnull":
@@ -213,6 +239,11 @@ def render(e, sqlite: bool = False, qual: str = "") -> str:
         return f"COALESCE({', '.join(r(x) for x in e[1])})"
     if k == "case":
         return f"CASE WHEN {r(e[1])} THEN {r(e[2])} ELSE {r(e[3])} END"
+    if k in ("casen", "cases"):
+        flat, default = (e[1], e[2]) if k == "casen" else (e[2], e[3])
+        head = "CASE" if k == "casen" else f"CASE {wrap(e[1])}"
+        body = " ".join(f"WHEN {r(flat[i]) if k == 'casen' else wrap(flat[i])} THEN {r(flat[i + 1])}" for i in range(0, len(flat), 2))
+        return f"{head} {body}{' ELSE ' + r(default) if default is not None else ''} END"
     if k == "if":
         return f"{'IIF' if sqlite else 'IF'}({r(e[1])}, {r(e[2])}, {r(e[3])})"
     raise ValueError(k)
